@@ -116,7 +116,29 @@ def safe_repr(x):
             return '<repr failed: %s; object of %s>' % (type(e).__name__, type(x).__name__)
 
 
+def roundtrip(r):
+    """a Path produced by a sequence operation is itself a faithful value"""
+    try:
+        z = pickle.loads(pickle.dumps(r))
+    except Exception as e:
+        return 'pickling the resulting path %s fails with %s' % (safe_repr(r), type(e).__name__)
+    if z.items() != r.items() or get_ops(z)[0] is not get_ops(r)[0]:
+        return 'pickle round trip changes the resulting path %s into %s' % (safe_repr(r), safe_repr(z))
+    try:
+        y = eval(repr(r), dict(NS))
+    except Exception as e:
+        return 'eval(repr()) of the resulting path %s fails with %s' % (safe_repr(r), type(e).__name__)
+    if not ops_equal(tuple(get_ops(y)), tuple(get_ops(r))):
+        return 'eval(repr()) of the resulting path %s gives %s' % (safe_repr(r), safe_repr(y))
+    return None
+
+
 def check_seq(st):
+    w = check_seq_(st)
+    return w
+
+
+def check_seq_(st):
     n, oper, pred = st['n'], st['oper'], st['pred']
     steps = list(range(1, n + 1))
     p = mk_path(steps)
@@ -138,7 +160,9 @@ def check_seq(st):
             return None if not pred['ok'] else 'p[%d] raised IndexError, expected %s' % (oper['i'], pred['steps'])
         if not pred['ok']:
             return 'p[%d] on %d steps returned %r, expected IndexError (like a tuple)' % (oper['i'], n, r)
-        return None if r.items() == items_of(pred['steps']) else 'p[%d] = %r, expected steps %s' % (oper['i'], r, pred['steps'])
+        if r.items() != items_of(pred['steps']):
+            return 'p[%d] = %r, expected steps %s' % (oper['i'], r, pred['steps'])
+        return roundtrip(r)
     if o == 'slice':
         sl = oper['sl']
         s = slice(*[None if sl[f]['k'] == 'none' else sl[f]['i'] for f in ('lo', 'hi', 'st')])
@@ -148,7 +172,7 @@ def check_seq(st):
         exp = items_of(pred['steps'])
         if r.items() != exp or len(r) != len(pred['steps']):
             return 'p[%s:%s:%s] on %d steps = %s, expected steps %s' % (s.start, s.stop, s.step, n, safe_repr(r), pred['steps'])
-        return None
+        return roundtrip(r)
     if o == 'concat':
         q = mk_path([10 + j for j in range(1, oper['m'] + 1)])
         r = Path(p, q)
@@ -161,7 +185,7 @@ def check_seq(st):
         two = glom.glom(glom.glom(t, p), q)
         if one is not leaf or two is not leaf:
             return 'glom(t, Path(p, q)) is not glom(glom(t, p), q) for %r' % (r,)
-        return None
+        return roundtrip(r)
     if o == 'startswith':
         q = mk_path(oper['q'])
         got = p.startswith(q)
